@@ -299,10 +299,23 @@ func (c *Ctx) runTLC(r TLCRun) *TLCResult {
 // false is handled by the caller); anything else is a tool failure.
 func (c *Ctx) tlcTail(res *TLCResult) string {
 	lines := strings.Split(res.Out, "\n")
-	if len(lines) > 40 {
-		lines = lines[len(lines)-40:]
+	// the first error block is what matters; then the tail
+	var head []string
+	for i, l := range lines {
+		if strings.HasPrefix(l, "Error:") || strings.Contains(l, "exception") {
+			end := i + 12
+			if end > len(lines) {
+				end = len(lines)
+			}
+			head = append([]string{"--- first error ---"}, lines[i:end]...)
+			head = append(head, "--- tail ---")
+			break
+		}
 	}
-	return strings.Join(lines, "\n")
+	if len(lines) > 25 {
+		lines = lines[len(lines)-25:]
+	}
+	return strings.Join(append(head, lines...), "\n")
 }
 
 func (c *Ctx) account(res *TLCResult) {
